@@ -6,17 +6,23 @@ import (
 	"context"
 	"fmt"
 	"sync"
+	"time"
+
+	"github.com/bluenviron/gortsplib/v5/pkg/description"
+	"github.com/bluenviron/gortsplib/v5/pkg/format"
 
 	"github.com/bluenviron/mediamtx/internal/conf"
 	"github.com/bluenviron/mediamtx/internal/defs"
 	"github.com/bluenviron/mediamtx/internal/externalcmd"
 	"github.com/bluenviron/mediamtx/internal/logger"
+	"github.com/bluenviron/mediamtx/internal/stream"
 )
 
 // Seam for the C21 correspondence harness (which lives in package externalcmd): a REAL path — real
-// initialize(), real run() loop, default "publisher" source, no hooks configured — whose
-// ExternalCmdEnv() the harness hands to the real hooks, exactly as the protocol servers do
-// (`ExternalCmdEnv: res.Path.ExternalCmdEnv()`).
+// initialize(), real run() loop, default "publisher" source — whose ExternalCmdEnv() the harness hands
+// to the real hooks exactly as the protocol servers do (`ExternalCmdEnv: res.Path.ExternalCmdEnv()`),
+// and whose real record-segment callbacks (the closures built by path.startRecording) it can invoke
+// the way the recorder does.
 
 type verifC21Parent struct{}
 
@@ -29,14 +35,22 @@ func (verifC21Parent) AddReader(defs.PathAddReaderReq) (*defs.PathAddReaderRes, 
 	return nil, fmt.Errorf("not available in the C21 harness")
 }
 
-// VerifC21Path creates a path and returns its ExternalCmdEnv method and a function that destroys it.
-func VerifC21Path(name string, matches []string, rtspAddress string) (func() externalcmd.Environment, func()) {
+// VerifC21PathHandle is a live path.
+type VerifC21PathHandle struct {
+	pa   *path
+	pool *externalcmd.Pool
+}
+
+// VerifC21Path creates a path. pconf carries the hook command strings (and the record settings).
+func VerifC21Path(name string, matches []string, rtspAddress string, pconf *conf.Path) *VerifC21PathHandle {
 	pool := &externalcmd.Pool{}
 	pool.Initialize()
+	pconf.Name = name
+	pconf.Source = "publisher"
 	pa := &path{
 		parentCtx:       context.Background(),
 		rtspAddress:     rtspAddress,
-		conf:            &conf.Path{Name: name, Source: "publisher"},
+		conf:            pconf,
 		name:            name,
 		matches:         matches,
 		wg:              &sync.WaitGroup{},
@@ -44,9 +58,52 @@ func VerifC21Path(name string, matches []string, rtspAddress string) (func() ext
 		parent:          verifC21Parent{},
 	}
 	pa.initialize()
-	return pa.ExternalCmdEnv, func() {
-		pa.close()
-		pa.wait()
-		pool.Close()
+	return &VerifC21PathHandle{pa: pa, pool: pool}
+}
+
+// Env is path.ExternalCmdEnv.
+func (h *VerifC21PathHandle) Env() externalcmd.Environment { return h.pa.ExternalCmdEnv() }
+
+func (h *VerifC21PathHandle) record() {
+	if h.pa.recorder != nil {
+		return
 	}
+	st := &stream.Stream{
+		OrigDesc: &description.Session{Medias: []*description.Media{{
+			Type:    description.MediaTypeAudio,
+			Formats: []format.Format{&format.Opus{PayloadTyp: 96, ChannelCount: 2}},
+		}}},
+		WriteQueueSize: 8, RTPMaxPayloadSize: 1400, Parent: verifC21Parent{},
+	}
+	if err := st.Initialize(); err != nil {
+		panic(err)
+	}
+	// the path's loop is idle (no requests are ever sent to it), so these fields are ours
+	h.pa.stream = st
+	h.pa.startRecording()
+}
+
+// SegmentCreate invokes the path's real OnSegmentCreate callback, as the recorder does.
+func (h *VerifC21PathHandle) SegmentCreate(segmentPath string) {
+	h.record()
+	h.pa.recorder.OnSegmentCreate(segmentPath)
+}
+
+// SegmentComplete invokes the path's real OnSegmentComplete callback.
+func (h *VerifC21PathHandle) SegmentComplete(segmentPath string, d time.Duration) {
+	h.record()
+	h.pa.recorder.OnSegmentComplete(segmentPath, d)
+}
+
+// Close destroys the path and waits for its hook commands.
+func (h *VerifC21PathHandle) Close() {
+	if h.pa.recorder != nil {
+		h.pa.recorder.Close()
+		h.pa.recorder = nil
+		h.pa.stream.Close()
+		h.pa.stream = nil
+	}
+	h.pa.close()
+	h.pa.wait()
+	h.pool.Close()
 }
